@@ -10,6 +10,7 @@ from fractions import Fraction
 from harness import common as C
 from harness import fw
 from harness import c02_fngen as FG
+from harness import c02_ctl as CT
 from harness import pyast_wire as W
 
 META = {
@@ -515,6 +516,8 @@ def wire_block(stmts):
             out.append([4, st[1], wire_block(st[3])])
         elif k == "return":
             out.append([5] if st[1] is None else [5, W.enc_src(st[1])])
+        elif k == "tassign":
+            out.append([7, list(st[1]), [W.enc_src(x) for x in st[2]]])
         elif k == "write":
             pass                                   # no typing effect
         else:
@@ -606,6 +609,14 @@ class TypGen:
                 out.append(("assignc", rng.choice(["L1", "L1", "L2"]), t, rng.choice(["3", "2", "a"]), self.expr(rng.choice([0, 1, 1]), names + [t, t], calls)))
             elif in_fn and r < 0.58:
                 out.append(("return", None if rng.random() < 0.12 else self.expr(2, names, calls)))
+            elif r < 0.66:                                   # tuple assignment: new and old names, swaps, an extra value
+                k = rng.choice([2, 2, 3])
+                tnames = [rng.choice(names + ["m", "n"]) for _ in range(k)]
+                vals = [self.expr(rng.choice([0, 1, 1]), names, calls) for _ in range(k + (rng.random() < 0.1))]
+                if rng.random() < 0.2 and len(names) >= 2:
+                    tnames = rng.sample(names, 2)
+                    vals = list(reversed(tnames))
+                out.append(("tassign", tnames, vals))
             else:
                 out.append(("assign", rng.choice(names), self.expr(rng.choice([0, 1, 2, 2]), names, calls)))
         return out
@@ -683,6 +694,12 @@ FIXED_PROGRAMS = [
     [("def", "f", ["count", "limit"], [("if", [("count < 0", [("return", "False")])], None), ("if", [("count >= limit", [("return", "True")])], None),
                                        ("return", "count + 1")]),
      ("stmt", ("assign", "a", "f(3, 10)")), ("stmt", ("assign", "x", "2.5")), ("stmt", ("assign", "b", "f(x, 10)")), ("stmt", ("assign", "c", "f(True, 1)"))],
+    # tuple assignments: all-new names at column 0 (globals, no temporaries), a swap, mixed new/old, inside a block,
+    # in a def, in the main loop, one name twice
+    [("stmt", ("tassign", ["a", "b", "s"], ["1", "2.5", "'x'"])), ("stmt", ("tassign", ["a", "b"], ["b", "a"])),
+     ("stmt", ("tassign", ["a", "c"], ["a + 1", "a * 0.5"])), ("stmt", ("if", [("a > 0", [("tassign", ["d", "e"], ["True", "b"])])], None)),
+     ("def", "f", ["p"], [("tassign", ["z", "w"], ["p", "p * 0.5"]), ("tassign", ["z", "w"], ["w", "z"]), ("return", "z")]),
+     ("stmt", ("assign", "u", "f(1)")), ("loop", [("tassign", ["r", "t"], ["a", "2.5"]), ("tassign", ["r", "r"], ["1", "2"])])],
     [("stmt", ("if", [("1 > 0", [("assign", "g", "1.5")])], [("assign", "g", "0.5")])),
      ("def", "f", ["v"], [("if", [("v > 1", [("assign", "r", "v * 2")])], [("assign", "r", "v")]), ("return", "r")]),
      ("stmt", ("assign", "n", "3")), ("stmt", ("assign", "x", "1.25")), ("stmt", ("assign", "a", "f(n)")), ("stmt", ("assign", "b", "f(x)")),
@@ -692,6 +709,11 @@ FIXED_PROGRAMS = [
 
 def norm_decls(l):
     return sorted([str(n), str(t)] for n, t in l)
+
+
+def norm_set(l):
+    """globals as a set of (name, type): the emitter drops a global declaration line identical to an earlier one"""
+    return sorted([n, t] for n, t in {(str(n), str(t)) for n, t in l})
 
 
 def part_b(ctx, stats):
@@ -727,19 +749,31 @@ def part_b(ctx, stats):
         fw_funcs = [f for f in r["funcs"] if f["name"] in user]
         fw_setup = [f for f in r["funcs"] if f["name"] == "setup"]
         fw_loop = [f for f in r["funcs"] if f["name"] == "loop"]
+        def split_tmps(locs):
+            """tuple-assignment temporaries (`__tmp_assign_k`) are compared by the multiset of their C types"""
+            named = [x for x in locs if not str(x[0]).startswith("__tmp_assign_")]
+            return named, sorted(str(x[1]) for x in locs if str(x[0]).startswith("__tmp_assign_"))
+        s_named, s_tmps = split_tmps(fw_setup[0]["locals"]) if fw_setup else ([], [])
+        l_named, l_tmps = split_tmps(fw_loop[0]["locals"]) if fw_loop else ([], [])
         got = {
-            "globals": norm_decls(r["globals"]),
-            "setup_locals": norm_decls(fw_setup[0]["locals"]) if fw_setup else [],
-            "loop_locals": norm_decls(fw_loop[0]["locals"]) if fw_loop else [],
-            "functions": sorted([f["name"], f["ret"], [list(x) for x in (f["params"] or [])], norm_decls(f["locals"])] for f in fw_funcs),
+            # a NEW name declared at column 0 by a tuple assignment that also re-assigns an old one is emitted as a local of
+            # setup() (its scope is C05/C06's subject); the model lists every column-0 declaration in p_globals
+            "globals": norm_set(list(r["globals"]) + list(s_named)),
+            "setup_locals": [],
+            "loop_locals": norm_decls(l_named),
+            "functions": sorted([f["name"], f["ret"], [list(x) for x in (f["params"] or [])], norm_decls(split_tmps(f["locals"])[0]),
+                                 split_tmps(f["locals"])[1]] for f in fw_funcs),
+            "tuple_temporaries": sorted(s_tmps + l_tmps),
         }
         exp = {
-            "globals": norm_decls([(C.wstr(x), dec_ctype(t)) for x, t in m[1]]),
+            "globals": norm_set([(C.wstr(x), dec_ctype(t)) for x, t in m[1]]),
             "setup_locals": [],
             "loop_locals": norm_decls([(C.wstr(x), dec_ctype(t)) for x, t in m[2]]),
             "functions": sorted([C.wstr(f[0]), dec_ctype(f[1]), [[C.wstr(x), dec_ctype(t)] for x, t in f[2]],
-                                 norm_decls([(C.wstr(x), dec_ctype(t)) for x, t in f[3]])] for f in m[3]),
+                                 norm_decls([(C.wstr(x), dec_ctype(t)) for x, t in f[3]]), sorted(dec_ctype(t) for t in f[4])] for f in m[3]),
+            "tuple_temporaries": sorted(dec_ctype(t) for t in m[6]),
         }
+        st["tuple_temporaries"] = st.get("tuple_temporaries", 0) + len(got["tuple_temporaries"]) + sum(len(f[4]) for f in got["functions"])
         if got != exp:
             first = next(k for k in got if got[k] != exp[k])
             ctx.disagree(f"decls: declared C types differ ({first})", body, exp, {k: got[k] for k in got})
